@@ -272,7 +272,12 @@ pub fn generate_with_logs(plan: &Plan, core: &Rc<SimCore>, seed: u64, logs: bool
                         let mut emit = |r: &mut Rng, out: &mut Vec<Scenario<SimWorld>>, shape: &mut HistoryShape| {
                             for _ in 0..r.usize(1, 3) {
                                 let t = new_tok();
-                                let msg = if r.chance(1, 4) { format!("LOGLINE log{t}\n  second line of log{t}\n") } else { format!("LOGLINE log{t}\n") };
+                                let msg = match r.below(8) {
+                                    0 | 1 => format!("LOGLINE log{t}\n  second line of log{t}\n"),
+                                    // a message with an empty line in it
+                                    2 => format!("LOGLINE log{t}\n\n  after the blank line of log{t}\n"),
+                                    _ => format!("LOGLINE log{t}\n"),
+                                };
                                 shape.logs += 1;
                                 out.push(Scenario::Log(msg));
                             }
